@@ -1921,7 +1921,8 @@ class PGPKey(Armorable, ParentRef, PGPObject):
             # RFC 4880 says that primary keys *must* be capable of certification
             return {KeyFlags.Certify} | (user.selfsig.key_flags if user.selfsig else set())
 
-        return next(self.self_signatures).key_flags
+        # the most recent binding signature states what this subkey may be used for
+        return list(self.self_signatures)[-1].key_flags
 
     def _sign(self, subject, sig, **prefs):
         """
